@@ -160,6 +160,12 @@ def rest(ctx, rep, rule):
                             ok = base[0] == "f" and base[2] == "0" and start[0] == "f" and start[2] == "length" and start[1][0] == "f" and \
                                 start[1][2] == "1" and start[1][1] == base[1] and \
                                 flow.mentions(base, lambda s: s[0] == "call" and (s[1] or "").endswith("BerHeader::from_ber"))
+                    # tail.split_at(hdr.length).1 is the same slice
+                    if not ok and r[0] == "f" and r[2] == "1" and r[1][0] == "call" and (r[1][1] or "").split("::")[-1] == "split_at" and len(r[1][2]) == 2:
+                        base, start = r[1][2]
+                        ok = base[0] == "f" and base[2] == "0" and start[0] == "f" and start[2] == "length" and start[1][0] == "f" and \
+                            start[1][2] == "1" and start[1][1] == base[1] and \
+                            flow.mentions(base, lambda s: s[0] == "call" and (s[1] or "").endswith("BerHeader::from_ber"))
                     rep.check(rule, name + "|remainder", ok, "&tail[hdr.length..]",
                               "the remainder returned is %s, not the input right after the declared contents" % why, body.loc(st["line"]), obligation=True)
         if not found:
@@ -189,15 +195,15 @@ def trailing(ctx, rep, rule):
         oks = flow.blocks_assigning_return(body, lambda rv: rv["k"] == "agg" and rv.get("vname") == "Ok")
 
         def is_rest_of_seq(t):
-            return t[0] == "f" and t[2] == "0" and flow.mentions(t, lambda s: s[0] == "call" and (s[1] or "").endswith("BerDecoder::from_ber")) and \
-                flow.mentions(t, lambda s: s[0] == "arg")
+            # (the input it was cut from may have gone through a helper's Result, where the argument is no longer visible in the term)
+            return t[0] == "f" and t[2] == "0" and flow.mentions(t, lambda s: s[0] == "call" and (s[1] or "").endswith("BerDecoder::from_ber"))
         ge = [g for g in gs if g.term[0] == "call" and (g.term[1] or "").endswith("[T]>::is_empty") and g.term[2] and is_rest_of_seq(g.term[2][0])]
         key = "%s|no-trailing-data" % name.split(" as ")[0].lstrip("<")
         if not ge or not oks:
             rep.violation(rule, key, "no `tail.is_empty()` test on the remainder of the enclosing SEQUENCE guards the successful decoding of the %s: "
                           "octets after it would be accepted" % what, body.loc(), obligation=True)
             continue
-        good = [g for g in ge if cfg.must_pass(body, [0], oks, {g.true_edge})]
+        good = [g for g in ge if cfg.must_pass(body, [0], oks, {g.true_edge}) or not (cells.variant_reach(body, cut=frozenset({g.true_edge})) & set(oks))]
         rep.check(rule, key, bool(good), "Ok(..) only when nothing follows the %s" % what,
                   "a %s can be decoded successfully although octets follow it (an Ok return is reachable without the empty-remainder test)" % what,
                   body.loc(ge[0].line), obligation=True)
@@ -242,6 +248,13 @@ def width(ctx, rep, rule):
                         while src[0] == "cast":
                             src = src[1]
                         if src == ("idx", ("arg", 1), ("const", 0)):
+                            widening = True
+                    # ... and the first octet of a REAL's binary exponent (X.690 8.5.7.4: a two's-complement number)
+                    if not widening and "<ber::real::SnmpReal as " in own and (fb, fs, tb, ts) == (8, False, 8, True):
+                        src = flow.Prov(body).operand(st["rv"]["op"])
+                        while src[0] == "cast":
+                            src = src[1]
+                        if src[0] == "idx" and flow.mentions(src[1], lambda x: x == ("arg", 1)):
                             widening = True
                     key = "%s|cast %s->%s#%d" % (body.path, facts.types[st["rv"]["from"]]["s"], facts.types[st["rv"]["to"]]["s"], blk.idx)
                     rep.check(rule, key, widening, "widening", "a narrowing or sign-changing cast on the value decode path loses bits of the value",
@@ -572,6 +585,15 @@ def encoder_casts(ctx, rep, rule):
                 if st["k"] == "assign" and st["rv"]["k"] == "cast" and st["rv"].get("ck") == "IntToInt" and "const" not in st["rv"]["op"]:
                     ft, tt = facts.types[st["rv"]["from"]], facts.types[st["rv"]["to"]]
                     if ft.get("k") == "int" and tt.get("k") == "int" and (tt["bits"] < ft["bits"] or (tt["bits"] == ft["bits"] and ft.get("signed") != tt.get("signed"))):
+                        # a cast whose operand is known to fit (a guarded fast path such as `if (0..=0x7f).contains(&v) { .. v as u8 .. }`)
+                        from .crypto import guard_range
+                        prov_ = flow.Prov(b)
+                        lo_, hi_ = guard_range(b, prov_, blk.idx, prov_.operand(st["rv"]["op"]))
+                        tmax = (1 << (tt["bits"] - (1 if tt.get("signed") else 0))) - 1
+                        tmin = -(1 << (tt["bits"] - 1)) if tt.get("signed") else 0
+                        if lo_ is not None and hi_ is not None and tmin <= lo_ and hi_ <= tmax:
+                            rep.ok(rule, "%s|cast %s->%s" % (b.path, ft["s"], tt["s"]), "operand within %d..=%d at the cast" % (lo_, hi_), b.loc(st.get("line")))
+                            continue
                         rep.violation(rule, "%s|cast %s->%s" % (b.path, ft["s"], tt["s"]), "an encoder narrows an integer before serialising it (%s as %s): values "
                                       "outside the narrower type are sent as another number" % (ft["s"], tt["s"]), b.loc(st.get("line")), obligation=True)
     if n < 8:
@@ -612,6 +634,9 @@ def real_forms(ctx, rep, rule):
             return None
         blocks, _ = cells.feasible(b, prov, ev)
         reach = bool(blocks & oks)
+        if reach and v not in defined:
+            # the refusal may go through an Option / Result (`_ => None` ... `.ok_or(InvalidData)?`): follow the variants
+            reach = bool(cells.variant_reach(b, within=blocks) & oks)
         if v in defined and not reach:
             refused.append(v)
         if v not in defined and reach:
@@ -762,8 +787,20 @@ def length_forms(ctx, rep, rule):
     table = (("v < 128 (short form)", (True, True), [TAG, lowv]),
              ("128 <= v < 256 (0x81 form)", (False, True), [TAG, ("const", 0x81), lowv]),
              ("v >= 256 (0x82 form)", (False, False), [TAG, ("const", 0x82), highv, lowv]))
+    def norm(t):
+        # the same octet spelled with division / remainder / mask: (v / 256) as u8, (v % 256) as u8, (v & 0xff) as u8
+        if t[0] == "cast" and t[2] == "u8":
+            x = t[1]
+            while x[0] == "f":
+                x = x[1]
+            if x[0] == "bin" and x[1] == "Div" and x[3] == ("const", 256):
+                return ("cast", ("bin", "Shr", x[2], ("const", 8)), "u8")
+            if x[0] == "bin" and ((x[1] == "Rem" and x[3] == ("const", 256)) or (x[1] == "BitAnd" and x[3] == ("const", 255))):
+                return ("cast", x[2], "u8")
+        return t
     for name, (a, b), want in table:
         wire, ens, unchecked = cell(a, b)
+        wire = [norm(x) for x in wire]
         key = "Buffer::push_tag_len|" + name
         rep.check(rule, key, wire == want, "octets on the wire: %s" % [flow.fmt(x) for x in want],
                   "for %s the octets written are %s (wire order), X.690 8.1.3 requires %s" % (name, [flow.fmt(x) for x in wire], [flow.fmt(x) for x in want]),
@@ -807,7 +844,20 @@ def oid_text(ctx, rep, rule):
         last = p.split("::")[-1]
         if last in ALTER:
             t = prov.call_term(blk.term)
-            if flow.mentions(t, lambda s: s[0] == "call" and (s[1] or "").endswith("Iterator>::next")):
+            # the arc itself, not a quantity measured on it (its bit length via leading_zeros, a digit count ...)
+            def arc_value(x):
+                if x[0] == "call" and (x[1] or "").split("::")[-1] in ("leading_zeros", "trailing_zeros", "count_ones", "ilog2", "ilog10", "len", "checked_ilog2"):
+                    return False
+                if x[0] == "call" and (x[1] or "").endswith("Iterator>::next"):
+                    return True
+                subs = []
+                for y in x[1:]:
+                    if isinstance(y, tuple) and y and isinstance(y[0], str):
+                        subs.append(y)
+                    elif isinstance(y, tuple):
+                        subs += [z for z in y if isinstance(z, tuple) and z and isinstance(z[0], str)]
+                return any(arc_value(y) for y in subs)
+            if arc_value(t):
                 n += 1
                 rep.violation(rule, "SnmpOid::try_from(&str)|no-clamp#%d" % n, "a parsed arc goes through %s(..): an out-of-range or malformed arc is replaced by "
                               "another value instead of being refused, so a different OID is sent" % last, body.loc(blk.term["line"]), obligation=True)
